@@ -234,3 +234,4 @@ def oracle(line, out_full, expect):
     elif expect[0] == "early":
         if n != expect[1] or not res.startswith("err:"): return "failure before the last round: expected err and %d message(s), got %s" % (expect[1], out[:100])
     return None
+from ties import of as _tie_of; TIE_LAYOUTS, TIE_PINS, TIE_ENUMS = _tie_of("C01")   # static-tie lemmas (coq/Gen/Tie) this property depends on
